@@ -274,3 +274,49 @@ impl Client {
         let _ = self.terminate_tx.send(());
     }
 }
+
+/// Verification hooks (add-only, compiled only with `--cfg remoc_verif`).
+#[cfg(remoc_verif)]
+#[allow(missing_docs, private_interfaces, dead_code, clippy::all)]
+pub mod verif_hooks {
+    use super::*;
+
+    pub enum ConnectResponseView {
+        Accepted(Sender, Receiver),
+        Rejected { no_ports: bool },
+    }
+
+    pub fn connect_response_view(r: ConnectResponse) -> ConnectResponseView {
+        match r {
+            ConnectResponse::Accepted(tx, rx) => ConnectResponseView::Accepted(tx, rx),
+            ConnectResponse::Rejected { no_ports } => ConnectResponseView::Rejected { no_ports },
+        }
+    }
+
+    pub struct ConnectRequestView {
+        pub local_port: PortNumber,
+        pub id: u32,
+        pub sent_tx: mpsc::Sender<()>,
+        pub response_tx: oneshot::Sender<ConnectResponse>,
+        pub wait: bool,
+    }
+
+    pub fn connect_request_view(r: ConnectRequest) -> ConnectRequestView {
+        let ConnectRequest { local_port, id, sent_tx, response_tx, wait } = r;
+        ConnectRequestView { local_port, id, sent_tx, response_tx, wait }
+    }
+
+    pub fn client_new(
+        tx: mpsc::UnboundedSender<ConnectRequest>, limit: u16, port_allocator: PortAllocator,
+        listener_dropped: Arc<AtomicBool>, terminate_tx: mpsc::UnboundedSender<()>,
+    ) -> Client {
+        Client::new(tx, limit, port_allocator, listener_dropped, terminate_tx)
+    }
+
+    /// Splits a `Connect` into its parts.
+    pub fn connect_parts(
+        c: Connect,
+    ) -> (mpsc::Receiver<()>, JoinHandle<Result<(Sender, Receiver), ConnectError>>) {
+        (c.sent_rx, c.response)
+    }
+}
